@@ -242,6 +242,10 @@ def _expr(vars_, first, prior, depth, feature=None):
     cond = st.one_of(cmpc, st.tuples(st.sampled_from(["and", "or"]), cmpc, cmpc).map(
         lambda t: {"c": t[0], "a": t[1], "b": t[2]}))
     iff = st.tuples(cond, sub, sub).map(lambda t: {"o": "if", "c": t[0], "a": t[1], "b": t[2]})
+    # C remainder: the result takes the sign of the DIVIDEND (r - c is negative below c), whatever the divisor's sign
+    fmod = st.tuples(rvar, _num_expr(0.3, 8), _num_expr(0.3, 3), st.booleans()).map(
+        lambda t: {"o": "pymath", "f": "fmod", "args": [{"o": "-", "a": t[0], "b": t[1]},
+                                                         ({"o": "neg", "a": t[2]} if t[3] else t[2])]})
     pym = st.one_of(
         st.tuples(st.sampled_from(["sin", "cos", "tanh", "atan", "fabs"]), sub).map(
             lambda t: {"o": "pymath", "f": t[0], "args": [t[1]]}),
@@ -261,6 +265,7 @@ def _expr(vars_, first, prior, depth, feature=None):
         st.tuples(sub, sub).map(lambda t: {"o": "pymath", "f": "copysign", "args": list(t)}),
         st.tuples(st.sampled_from(["floor", "ceil", "trunc"]), rvar, _num_expr(0.5, 3)).map(
             lambda t: {"o": "pymath", "f": t[0], "args": [{"o": "*", "a": t[1], "b": t[2]}]}),
+        fmod, fmod,
     )
     sep_like = st.one_of(rvar,
                          st.tuples(rvar, _num_expr(0.1, 2)).map(lambda t: {"o": "+", "a": t[0], "b": t[1]}),
@@ -273,6 +278,7 @@ def _expr(vars_, first, prior, depth, feature=None):
         "arith": st.one_of(binop("+"), binop("-"), binop("*"), div, power, sub.map(lambda e: {"o": "neg", "a": e})),
         "func": st.one_of(bounded_exp, call1, call_pos, mm),
         "if": iff, "pymath": pym, "as": asf, "leaf": leaf,
+        "fmod": st.one_of(fmod, st.tuples(fmod, sub).map(lambda t: {"o": "+", "a": t[0], "b": t[1]})),
     }
     if prior:
         def mkcall(t):
@@ -341,7 +347,11 @@ def table_form(draw, name, max_points=40, x0=None):
     for s in steps:
         xs.append(round(xs[-1] + s, 6))
     ys = draw(st.lists(number(-50, 50), min_size=n, max_size=n))
-    style = draw(st.sampled_from(["x_y", "xy_line", "xy_cont"]))
+    if draw(st.integers(0, 4)) == 0:
+        # strictly increasing values: the y column would pass for an x column
+        ys = [round(float(v) + 0.001 * i, 6) for i, v in enumerate(sorted(ys))]
+    # y_x: the same two entries with the 'y' line written before the 'x' line (entries of a section have no order)
+    style = draw(st.sampled_from(["x_y", "y_x", "xy_line", "xy_cont"]))
     t = {"name": name, "x": xs, "y": ys, "style": style}
     if draw(st.booleans()):
         t["interpolation"] = "cubic_spline"
@@ -562,24 +572,94 @@ def node_break_potdef(draw, nodes):
 
 
 VARIATIONS = ["copy", "add_range", "add_range", "drop_range", "shift_start", "flip_marker", "other_first_body",
-              "first_start", "first_start"]
+              "first_start", "first_start", "param_twin", "param_twin"]
+# parameters of built-in forms that may take any sign
+SIGNED_PARAMS = {"constant": [0], "coul": [0, 1], "buck": [0, 2], "bornmayer": [0], "exponential": [0], "morse": [2], "sqrt": [0]}
 
 
-def vary(draw, pd, body):
+def _leaves(pd, path=()):
+    """[(path, body)] of the parametrised leaves (built-in and custom forms) of a definition"""
+    out = []
+    for i, rg in enumerate(pd["ranges"]):
+        b = rg["body"]
+        if b.get("k") in ("form", "custom") and b.get("p"):
+            out.append((path + (i,), b))
+        elif b.get("k") == "mod" and b["m"] in ("sum", "product"):
+            for j, a in enumerate(b["args"]):
+                out += _leaves(a, path + (i, j))
+    return out
+
+
+def _leaf_at(pd, path):
+    while len(path) > 1:
+        pd = pd["ranges"][path[0]]["body"]["args"][path[1]]
+        path = path[2:]
+    return pd["ranges"][path[0]]["body"]
+
+
+def _expr_has_custom(e):
+    if isinstance(e, dict):
+        return e.get("o") == "custom" or any(_expr_has_custom(v) for v in e.values())
+    if isinstance(e, list):
+        return any(_expr_has_custom(v) for v in e)
+    return False
+
+
+def _expr_vars(e, acc):
+    if isinstance(e, dict):
+        if e.get("o") == "var":
+            acc.add(e["n"])
+        for v in e.values():
+            _expr_vars(v, acc)
+    elif isinstance(e, list):
+        for v in e:
+            _expr_vars(v, acc)
+    return acc
+
+
+def vary(draw, pd, body, how=None, customs=None):
     """a definition that shares most of an earlier definition of the same model: an exact copy, the same ranges
     with a further range appended / the last one removed, the same bodies with one range start moved or one marker
     flipped, or the same continuation behind another first body.  Independent random definitions (almost) never
     coincide in any part, so anything keyed on part of a definition is only exercised by these."""
     import copy
+    orig = pd
     pd = copy.deepcopy(pd)
     rgs = pd["ranges"]
-    how = draw(st.sampled_from(VARIATIONS))
+    how_forced = how is not None
+    how = how or draw(st.sampled_from(VARIATIONS))
+    if how == "param_twin":
+        # the same definition with ONE PARAMETER changed, the two values being -1 and -2 (or another close pair):
+        # CPython gives hash(-1) == hash(-2), so anything keyed on a hash of the parameters confuses the two entries;
+        # BOTH definitions are edited (the earlier one in place)
+        cands = []
+        for path, b in _leaves(orig):
+            idx = range(len(b["p"])) if b["k"] == "custom" or b["name"] == "polynomial" else SIGNED_PARAMS.get(b["name"], [])
+            if b["k"] == "custom" and customs:
+                # only parameters the formula actually reads
+                f = [c for c in customs if c["name"] == b["name"]]
+                used = _expr_vars(f[0]["expr"], set()) if f else set()
+                idx = [i for i in idx if not f or f[0]["params"][i + 1] in used]
+            cands += [(path, i) for i in idx]
+        if not cands:
+            how = "copy"
+        else:
+            cc = [c for c in cands if _leaf_at(orig, c[0])["k"] == "custom"]
+            if cc and (how_forced or draw(st.integers(0, 3)) > 0):
+                cands = cc
+            path, i = draw(st.sampled_from(cands))
+            v1, v2 = draw(st.sampled_from([(-1, -2), (-2, -1), (-1.0, -2.0), (-1, -2), (1, -1), (2.0, 2.5)]))
+            _leaf_at(orig, path)["p"] = list(_leaf_at(orig, path)["p"])
+            _leaf_at(orig, path)["p"][i] = v1
+            _leaf_at(pd, path)["p"] = list(_leaf_at(orig, path)["p"])
+            _leaf_at(pd, path)["p"][i] = v2
+            return pd
     inner = [r for r in rgs if r["body"].get("k") == "mod" and r["body"]["m"] in ("sum", "product", "trans")]
-    if inner and draw(st.integers(0, 2)) == 0:
+    if inner and how != "param_twin" and draw(st.integers(0, 2)) == 0:
         # the same modifier with ONE ARGUMENT varied (a range added to it, its start moved, ...)
         b = draw(st.sampled_from(inner))["body"]
         i = draw(st.integers(0, len(b["args"]) - 1))
-        b["args"][i] = vary(draw, b["args"][i], body)
+        b["args"][i] = vary(draw, b["args"][i], body, customs=customs)
         return pd
     last = max([0.0] + [float(r["s"]) for r in rgs if r["m"] is not None])
     if how == "add_range" or (how in ("drop_range", "shift_start") and len(rgs) < 2):
@@ -669,13 +749,16 @@ def pair_model(draw, max_pots=4, depth=2, max_tables=1, pycallables=False, min_p
         if draw(st.booleans()):
             a, b = b, a
         if pair and draw(st.integers(0, 3)) == 0:
-            pd = vary(draw, draw(st.sampled_from(pair))[2], potdef(0, customs, tables, max_ranges=1).map(lambda d: d["ranges"][0]["body"]))
+            pd = vary(draw, draw(st.sampled_from(pair))[2], potdef(0, customs, tables, max_ranges=1).map(lambda d: d["ranges"][0]["body"]), customs=customs)
         else:
             pd = draw(potdef(draw(st.sampled_from([0, 1, 1, depth])), customs, tables, max_ranges=3))
         if pycallables:
             pd = tag(pd)
         pair.append([a, b, pd])
-    return {"env": {"custom": customs, "table": tables}, "pair": pair, "species": species}
+    m = {"env": {"custom": customs, "table": tables}, "pair": pair, "species": species}
+    if pycallables and draw(st.integers(0, 3)) == 0:
+        m["int_returns"] = True         # API routes: callables return Python ints where their value is a whole number
+    return m
 
 
 # hard-coded cross-check table (atomic number exact, mass to 0.5 %)
@@ -778,6 +861,8 @@ def eam_model(draw, kind="eam", n_min=1, n_max=4, depth=1, pycallables=False, ma
             sp.append([e, "lattice_type", draw(st.sampled_from(LATTICES))])
     m["species"] = list(draw(st.permutations(sp))) if sp else []
     m["grid"] = draw(eam_grid())
+    if pycallables and draw(st.integers(0, 3)) == 0:
+        m["int_returns"] = True         # API routes: callables return Python ints where their value is a whole number
     return m
 
 
@@ -831,6 +916,23 @@ def special_pair_model(draw, kind, dlpoly=False):
             {"k": "mod", "m": "sum", "args": [_single({"k": "form", "name": "constant", "p": [-c * rk]}),
                                                 _single({"k": "form", "name": "polynomial", "p": [0, c]})]}]))
         pd = _single(body)
+    elif kind == "int_plateau":
+        # whole numbers typed without a decimal point (Python ints on every route) in the first range, so that the
+        # energy and/or its derivative is an int on the first rows and a non-integral float further out
+        nr = draw(st.integers(6, 20)) * 4 if dlpoly else draw(st.integers(20, 80))
+        cutoff = draw(st.sampled_from([4.0, 6.5, 10.0, 7.3]))
+        c = draw(st.sampled_from([25, 2, -3, 1, 0, 7]))
+        first = draw(st.sampled_from([{"k": "form", "name": "constant", "p": [c]},
+                                      {"k": "form", "name": "polynomial", "p": [c]},
+                                      {"k": "form", "name": "polynomial", "p": [c, draw(st.sampled_from([1, -2, 3]))]}]))
+        brk = _round_sig(cutoff * draw(st.sampled_from([0.3, 0.42, 0.55, 0.7])), 3)
+        then = draw(st.sampled_from([{"k": "form", "name": "buck", "p": [1000.0, 0.3, 32.0]},
+                                     {"k": "form", "name": "bornmayer", "p": [draw(fl(10, 2e3)), 0.35]},
+                                     {"k": "form", "name": "morse", "p": [1.7, 1.2, 0.8]},
+                                     {"k": "form", "name": "lj", "p": [0.0104, 3.4]}]))
+        m0 = draw(st.sampled_from([None, None, ">=", ">"]))
+        pd = {"ranges": [{"m": m0, "s": None if m0 is None else 0.0, "body": first},
+                         {"m": draw(st.sampled_from([">=", ">"])), "s": brk, "body": then}]}
     elif kind == "growth":
         nr = draw(st.integers(6, 20)) * 4 if dlpoly else draw(st.integers(20, 80))
         cutoff = draw(st.sampled_from([20.0, 25.0, 32.0, 40.0]))
